@@ -33,7 +33,7 @@ add("C14", "K separate processes that differ only in the hash seed behind an LD_
 add("C15", "Record -> persist -> lose the source -> replay: the workload runs through AdapterTap<SimAdapter> (lazy, or read-ahead inside next() below the tap); rows must equal the untapped run; the Trace is serialised to RON, deserialised and compared; replay from the deserialised trace alone must reproduce the rows (complete, and a cancelled row prefix with complete=false) while the simulated data source sees no event.", ENGINE_NOTE + " Prefetch inside the resolver call is excluded: TraceReaderAdapter cannot replay such traces by design; recordings are never cancelled (the replayer always asks for one row more than expected).", "deterministic simulation: recorded history (trace) replayed after dropping the data source; read-ahead schedules below the tap")
 add("C22", "Workload biased to folds with count filters (all operators, boundary arguments, nested folds, count tags used in the same component, in later folds and in later folds' count filters) under random schedules; refinement against the reference model, which materialises every fold fully; and, model-free, three observation transforms (add a count output, add an output nested inside the fold, add a count tag plus a neutral use) must leave the original outputs and the row multiset unchanged.", MODEL_NOTE, "deterministic simulation: refinement against a full-materialisation model + observation transforms across independently drawn schedules")
 add("C23", "Metamorphic relations applied only where sound, over property filters and over fold-count filters (add filter => subset; raise recursion depth => superset; make edge @optional => superset; parameterised edge == equivalent filter; '=' == one_of [x]; filter + exact negation partition the unfiltered rows; renaming outputs/tags; reordering sibling selections), original and transformed query each under an independently drawn schedule and hint subset, so the relation is checked across legal adapter behaviours.", ENGINE_NOTE + " The 'equivalent filter' relation uses the harness's own meaning of edge parameters (Eq/Min on a destination property).", "deterministic simulation: metamorphic relations between two independently scheduled runs")
-add("C24", "Compile-time Send+Sync assertion for Schema, IndexedQuery, IRQuery, InterpretedQuery, FieldValue, Type, EdgeParameters; and Miri as the thread scheduler (one -Zmiri-seed = one repeatable interleaving, data-race and UB detection): cold variants: 2-3 threads from a barrier with cold statics parse (two schemas sharing all names) / compile / execute concurrently, then compile over one shared Arc<Schema>; hot variants: 3-4 threads execute six shared, never-executed Arc<IndexedQuery> at the same time with two argument sets (queries cover every filter family with variable and tag operands, folds, optional, recursion, coercion); results must equal a sequential recomputation.", "Few interleavings per minute (quick 20 seeds, thorough 192). Data races / UB are reported by the first seed that executes the racy code; a purely logical atomicity violation with a window of a few basic blocks is hit by roughly 3% of the seeds (measured on seeded change C24-a), so for that class the thorough tier is the one with power. A change adding new shared state is seen by Miri, unlike with shimmed primitives.", "deterministic simulation: Miri-seeded thread schedules with race detection; compile-time bound check", engine="mirisim")
+add("C24", "Compile-time Send+Sync assertion for Schema, IndexedQuery, IRQuery, InterpretedQuery, FieldValue, Type, EdgeParameters; and Miri as the thread scheduler (one -Zmiri-seed = one repeatable interleaving, data-race and UB detection): cold variants: 2-3 threads from a barrier with cold statics parse (two schemas sharing all names) / compile / execute concurrently, then compile over one shared Arc<Schema>; hot variants: 3-4 threads execute six shared, never-executed Arc<IndexedQuery> at the same time with two argument sets and a dataset of their own each (the variant's focus query three extra times) (queries cover every filter family with variable and tag operands, folds, optional, recursion, coercion); results must equal a sequential recomputation.", "Few interleavings per minute (quick 20 seeds, thorough 192). Data races / UB are reported by the first seed that executes the racy code; a purely logical atomicity violation (no data race) needs a preemption inside its window and different values in flight on the threads, which is why every hot thread runs over its own dataset (seeded change C24-a: found within 16 seeds once that was in place, invisible in 352 seeds before). A change adding new shared state is seen by Miri, unlike with shimmed primitives.", "deterministic simulation: Miri-seeded thread schedules with race detection; compile-time bound check", engine="mirisim")
 add("C25", "Fault enumeration: for each generated schema, every single contract violation (reorder by swap/rotate/reverse; non-null property, a neighbor, or a true coercion for a context without an active vertex) at every (resolver, type, field) site the checker reaches and at first/middle/last position is injected into an otherwise correct adapter, one per run of the real check_adapter_invariants; it must panic exactly when the fault fired, return for the fault-free adapter, and reach every documented site.", "Exhaustive per schema over the stated single-fault space; schemas sampled by seed. The faulty adapter records that it really emitted the illegal output (fired).", "deterministic simulation: complete single-fault enumeration per schema against the real invariant checker", category="fault_enumeration")
 
 add("C20", "For each generated schema: (a) the real check_adapter_invariants must accept the real SchemaAdapter, and the engine is run over SchemaAdapter behind an order-preserving wrapper that reads ahead in tape-chosen chunks and injects contexts without an active vertex into every resolver input (answers for them must be null / no neighbors, in place); (b) three generated introspection queries over the meta-schema per schema; rows must equal the reference model evaluated on the harness's own dataset view of its schema AST (vertex types, interface flags, implements/implementer, properties and types, edges with targets, cardinalities, parameters and JSON defaults, entry points).", MODEL_NOTE + " Multisets with fold lists canonicalised: VertexType order is hash order and is not part of the claim. The meta-schema AST is a hand transcription of schema.graphql.", "deterministic simulation: perturbed input streams (read-ahead, injected vertex-less contexts) on the real SchemaAdapter + refinement against a model of the schema")
